@@ -97,7 +97,7 @@ def ctrlLine (st : KState) (e : SExp) : KState × String :=
       let fail (m : String) : KState × String := ({ st1 with dead := true }, m)
       -- ---- C14: list failures are fail-stop and reported; nothing else is fatal
       if failed && !st.closing then
-        let wantErr := if st.faultKind == "error" then "list-error" else "list-invalid"
+        let wantErr := if st.faultKind == "error" then "list-error" else if st.faultKind == "canceled" then "canceled" else "list-invalid"
         if !d then fail s!"reject C14 list {st.faultAt} failed ({st.faultKind}) but the controller is not done"
         else if err != wantErr then fail s!"reject C14 list {st.faultAt} failed ({st.faultKind}): Error() is {err}, expected {wantErr}"
         else if r != decide (st.faultAt > 1) then fail s!"reject C14/C08 list {st.faultAt} failed: Ready() is {r}"
